@@ -12,6 +12,13 @@ META = {
 HARNESS = ["c14_crc32.c", "c14_crc64.c", "c14_main.c", "c14_check.c", "c14_small32.c", "c14_small64.c"]
 HTU = "src/liblzma/check/crc32_fast.c"
 P64 = 0xC96C5795D7870F42
+# other build configurations of the check code: (harness name, extra compiler flags after the build's own, what it selects)
+CFG_SRCS = ["c14_crc32.c", "c14_crc64.c", "c14_small32.c", "c14_small64.c", "c14_cfg_main.c"]
+CONFIGS = [
+    ("c14nc", ["-UHAVE_FUNC_ATTRIBUTE_CONSTRUCTOR"], "no constructor attribute: first-call dispatch (crc32_dispatch/crc64_dispatch), mythread_once in crc*_small.c"),
+    ("c14gen", ["-UHAVE_USABLE_CLMUL"], "table-driven code only (CRC32_GENERIC/CRC64_GENERIC), no run-time dispatch"),
+    ("c14clmul", ["-mssse3", "-msse4.1", "-mpclmul"], "CLMUL code only (no tables, no run-time dispatch)"),
+]
 PROPS = ["XzVerif.Props.C14", "XzVerif.Props.C14Sha", "XzVerif.Props.C14Clmul"]
 
 
@@ -305,6 +312,8 @@ def oracle(line):
         return d + " " + d
     if t[0] == "huge":
         return huge_oracle(t)
+    if t[0].startswith("cfg"):
+        return cfg_oracle(t)
     if t[0] == "check":
         cid = int(t[1]) % (1 << 32)
         msg = b"".join(hx(x) for x in t[2:])
@@ -323,8 +332,35 @@ def oracle(line):
     return "bad-op"
 
 
+def cfg_cases(ctx):
+    """first-call cases for the other build configurations; every line runs in a fresh process per configuration"""
+    rng = ctx.rng
+    lines = []
+    for op, w in (("cfg32", 32), ("cfg64", 64), ("cfgsmall32", 32), ("cfgsmall64", 64)):
+        inits = [rng.getrandbits(w) | 1, (1 << w) - 1, 1, rng.getrandbits(w) | 1, 0]
+        lens = [0, 1, 9, 100] if op.startswith("cfgsmall") else [0, 1, 7, 8, 9, 15, 16, 17, 100, rng.randrange(128, 400)]
+        for k, n in enumerate(lens):
+            b = rng.randbytes(n)
+            ini = inits[k % len(inits)]
+            lines.append("%s %d %s" % (op, ini, vlib.hexs(b)))                 # first call = the whole buffer
+            if n >= 2:
+                c = rng.randrange(1, n)
+                lines.append("%s %d %s %s" % (op, ini, vlib.hexs(b[:c]), vlib.hexs(b[c:])))
+        lines.append("%s %d" % (op, inits[0]))                                 # first call with size 0
+        lines.append("%s %d - %s" % (op, inits[0], vlib.hexs(rng.randbytes(33))))
+    return lines
+
+
+def cfg_oracle(t):
+    msg = b"".join(hx(x) for x in t[2:])
+    v = (zlib.crc32(msg, int(t[1])) & 0xFFFFFFFF) if t[0].endswith("32") else crc64_py(msg, int(t[1]))
+    return "%d %d %d" % (v, v, v)
+
+
 def data_tokens(t):
     """the hex tokens of an op line"""
+    if t[0].startswith("cfg"):
+        return t[2:]
     return {"crc32": t[3:], "crc64": t[3:], "crc32s": t[2:], "crc64s": t[2:], "small32": t[2:], "small64": t[2:],
             "sha256": t[1:], "sha256s": t[1:], "check": t[2:]}.get(t[0], [])
 
@@ -367,6 +403,63 @@ def build_c(ctx):
     return exe
 
 
+def cpu_has_clmul():
+    try:
+        fl = open("/proc/cpuinfo").read()
+        return all((" " + f) in fl for f in ("pclmulqdq", "ssse3", "sse4_1"))
+    except Exception:
+        return False
+
+
+def build_config(name):
+    extra = [e for (n, e, _) in CONFIGS if n == name][0]
+    return vlib.harness_build(name, CFG_SRCS, tu=HTU, link_lib=False, extra=extra)
+
+
+def config_stage(ctx, model_ok):
+    """Other build configurations of the check code, first call of a fresh process per line; rows of the correspondence."""
+    clines = cfg_cases(ctx)
+    expect = None
+    if model_ok:
+        rc, mo, err = vlib.run_lines([vlib.model_exe("xzm_c14")], clines)
+        if rc == 0 and len(mo) == len(clines):
+            expect = mo
+        else:
+            ctx.obligation_broken("model driver xzm_c14 failed on the configuration ops", err)
+    table = {}
+    for name, extra, what in CONFIGS:
+        if name == "c14clmul" and not cpu_has_clmul():
+            table[name] = {"what": what, "skipped": "CPU without PCLMULQDQ/SSSE3/SSE4.1"}
+            continue
+        okh, log, cexe = build_config(name)
+        if not okh:
+            ctx.obligation_broken("stage B: configuration harness %s (%s) does not compile against /repo" % (name, " ".join(extra)), log)
+            continue
+        res = vlib.par_map(lambda ln: vlib.run_lines([cexe], [ln]), clines)     # a fresh process per line
+        bad = 0
+        for i, (ln, (rc, out, err)) in enumerate(zip(clines, res)):
+            got = out[0] if (rc == 0 and len(out) == 1) else "harness-abort"
+            ctx.case((name, ln), nontrivial=any(x != "-" for x in ln.split()[2:]),
+                     sample={"config": name, "op": ln[:120], "impl": got} if i == 3 else None)
+            ctx.count("config %s: first call of a fresh process" % name)
+            want = expect[i] if expect is not None else cfg_oracle(ln.split())
+            if got != want:
+                bad += 1
+                exp = cfg_oracle(ln.split())
+                if got != exp:
+                    if bad <= 3:
+                        ctx.violation("config-" + name + "-" + ln.split()[0],
+                                      {"kind": "build configuration '%s' (%s): columns = pieces chained from <init> as the first CRC calls of the process, one call, the same call again; differs from the standard value" % (name, what),
+                                       "config": name, "op": ln, "impl": got, "model": want, "python_reference": exp, "stderr": err[-1500:],
+                                       "how_to_replay": "./check C14 --replay <this file>"}, True)
+                else:
+                    ctx.obligation_broken("correspondence C14 (config %s): model and implementation disagree but implementation matches the Python reference (model defect)" % name,
+                                          json.dumps({"op": ln, "impl": got, "model": want}))
+        table[name] = {"what": what, "flags": extra, "ops": len(clines), "mismatches": bad}
+    ctx.cov["configurations"] = table
+    ctx.log("build-configuration cases done: " + ", ".join("%s %s" % (k, v.get("mismatches", "skipped")) for k, v in table.items()))
+
+
 def run(ctx):
     ctx.cov["rule"] = ("op lines generated from the seeded PRNG. CRC: crc32/crc64 <align> <init> <bytes> (every length 0..N, every "
                        "alignment 0..63, random/constant/patterned/extreme contents, random initial values), crc32s/crc64s over pieces, "
@@ -378,6 +471,7 @@ def run(ctx):
         "the C compiler, and that harness/c14_*.c feed the same bytes at the stated alignment to the C code and to the model driver",
         "CLMUL path: the model of crc_x86_clmul.h is proved equal to the reference for all inputs; the C instruction sequence is tied to that model by correspondence (column 2 of every crc32/crc64 op), intrinsics are modelled by their documented meaning; CPUID gate is a run-time fact of this machine",
         "SHA-256 theorems assume messages shorter than 2^61 bytes (the C code's 64-bit bit counter, as in FIPS 180-4)",
+        "build configurations: the default build plus three re-compilations of the check sources inside the harness (no constructor attribute = first-call dispatch; table-driven only; CLMUL only) and the HAVE_SMALL files; other configurations (big endian, ARM64/LoongArch CRC32 instructions, 32-bit x86 assembler, external SHA-256 libraries) are not compiled here",
         "the members of the lzma_check_state union are modelled side by side (one check type per init/update/finish sequence)",
         "byte strings are Lean Lists (unbounded length, no size_t): the theorems hold for every length, but C-level width effects on counts >= 2^32 (a mask or cast truncating size_t to 32 bits) are outside the model; they are exercised only by the 'huge single call' run (one call over 4 GiB - 1 / + 64 / + 12345 bytes vs the same buffer in ~1 GiB pieces vs independent GF(2) arithmetic / hashlib)",
     ]
@@ -465,6 +559,7 @@ def run(ctx):
             if mism > 5:
                 break
     ctx.cov["correspondence"] = {"ops": len(lines), "mismatches": mism, "model_ran": m_out is not None}
+    config_stage(ctx, m_out is not None)
     # judge the huge single-call cases
     hres, hexps = huge_future.result()
     huge_pool.shutdown()
@@ -515,6 +610,11 @@ def replay(ctx, path):
     if exe is None:
         print("build failed")
         return 2
+    if r.get("config"):
+        okh, log, exe = build_config(r["config"])
+        if not okh:
+            print("configuration harness does not build:", log[-1000:])
+            return 2
     rc, out, err = vlib.run_lines([exe], [r["op"]])
     exp = oracle(r["op"])
     print("op:", r["op"][:200])
